@@ -59,7 +59,7 @@ func Profile() *world.Profile {
 	}
 	p.MwShapes = append([]int{}, p.Shapes...)
 	p.MwShapes[world.ShCtxIntStr], p.MwShapes[world.ShCtxIntErr], p.MwShapes[world.ShTeapot] = 0, 0, 0
-	p.Ops = make([]int, 20)
+	p.Ops = make([]int, 24)
 	for i, w := range map[int]int{world.OpYield: 5, world.OpWriteHeader: 0, world.OpWrite: 0, world.OpFlush: 0, world.OpNext: 4, world.OpNextSwallow: 1,
 		world.OpCancel: 0, world.OpMapExtra: 2, world.OpSeeExtra: 4, world.OpEcho: 0, world.OpMark: 4, world.OpCheckMark: 4, world.OpSetHeader: 3,
 		world.OpBefore: 1, world.OpRender: 1, world.OpRedirect: 0, world.OpStatus: 2, world.OpCookie: 1, world.OpSeeSvc: 2} {
